@@ -23,9 +23,9 @@ from harness.common import Check
 
 REGISTRY = dict(
     text=("Proof (unbounded): in the heap model every component operation (DummyVecEnv, VecFrameStack, VecNormalize, VecTransposeImage, VecExtractDictObs, VecCheckNan, "
-          "VecMonitor, replay/rollout buffers, predict) passes the copy-discipline checker, and for EVERY disciplined program and EVERY call history interleaved with arbitrary "
+          "VecMonitor, replay/rollout buffers, HerReplayBuffer with retained info dicts, predict) passes the copy-discipline checker, and for EVERY disciplined program and EVERY call history interleaved with arbitrary "
           "caller writes: caller-owned arrays are never modified, returned objects are never retained in live state nor written later, and results do not depend on "
-          "caller writes to objects passed or returned earlier. Pre-fix VecFrameStack and DictReplayBuffer.add are refuted. Tie: alias-graph correspondence "
+          "caller writes to objects passed or returned earlier. Pre-fix VecFrameStack, DictReplayBuffer.add and HerReplayBuffer.add (kept / one-level-copied info dicts) are refuted with concrete histories. Tie: per-call aliasing facts of every program (call_facts) compared with the implementation + alias-graph correspondence "
           "(np.shares_memory vs model sharing relation) + snapshot/twin-run oracle over random call sequences."),
     note=("Trusted: Coq 8.16.1 kernel, harness/c19.py (walk of __dict__ for internal arrays, sentinel twin runs), numpy's shares_memory. The component programs in "
           "coq/Model/Alias.v are hand-written from the source and tied to it only by the alias-graph correspondence (no translator: the property is about object identity, "
@@ -513,6 +513,108 @@ def compare_facts(model_facts, taps):
     return bad
 
 
+
+# ------------------------------------------------------------------ per-call facts of the buffer programs
+
+# program of coq/Model/Alias.v -> (nargs, live slots, dead slots)
+BUFFER_PROGRAMS = {"buffer_add": (5, 5, 0), "buffer_sample": (0, 5, 0), "her_add": (7, 7, 0), "her_sample": (0, 7, 0)}
+
+
+def _mutable_values(infos):
+    """the mutable objects held INSIDE info dicts (nested dict / list / array), one level and below"""
+    import numpy as np
+
+    out = []
+
+    def walk(v):
+        if isinstance(v, (dict, list, np.ndarray)):
+            out.append(v)
+        if isinstance(v, dict):
+            for x in v.values():
+                walk(x)
+        elif isinstance(v, (list, tuple)):
+            for x in v:
+                walk(x)
+    for inf in infos or []:
+        if isinstance(inf, dict):
+            for x in inf.values():
+                walk(x)
+    return out
+
+
+def _buf_slot_objects(buf, cell=None):
+    """objects of the live slots 0..4 (ring arrays) and, for HER with copy_info_dict, 5 (info dicts retained for ring
+    cell `cell`) and 6 (mutable values inside them)"""
+    def arrs(x):
+        return list(x.values()) if isinstance(x, dict) else [x]
+    nxt = getattr(buf, "next_observations", None)
+    slots = [arrs(buf.observations), arrs(nxt) if nxt is not None else None, [buf.actions], [buf.rewards], [buf.dones]]
+    if hasattr(buf, "infos") and cell is not None:
+        kept = buf.infos[cell]
+        kept = list(kept) if kept is not None else []
+        slots += [[d for d in kept if isinstance(d, dict)], _mutable_values(kept)]
+    return slots
+
+
+def _obj_related(a, b):
+    import numpy as np
+
+    if a is b:
+        return True
+    if isinstance(a, np.ndarray) and isinstance(b, np.ndarray):
+        return bool(a.size and b.size and np.shares_memory(a, b))
+    return False
+
+
+def _buf_snap(buf, cell=None):
+    out = []
+    for objs in _buf_slot_objects(buf, cell):
+        out.append(None if objs is None else {"objs": objs, "ids": tuple(id(o) for o in objs), "fp": [_fp(o) for o in objs]})
+    return out
+
+
+def buffer_add_facts(prog, before, after, arg_groups):
+    """compare one add() call with call_facts of the model program `prog`; arg_groups[i] = objects of argument i"""
+    m = MODEL_FACTS.get(prog)
+    if m is None:
+        return []
+    _, _, _, m_rebound, _, m_slot_arg, m_written, _ = m
+    bad = []
+    for s_i, (b, a) in enumerate(zip(before, after)):
+        if a is None or s_i >= len(m_slot_arg):
+            continue
+        obs_arg = [any(_obj_related(o, x) for o in a["objs"] for x in grp) for grp in arg_groups]
+        if obs_arg != list(m_slot_arg[s_i])[:len(obs_arg)]:
+            bad.append(f"{prog}: live slot {s_i} vs the caller's arguments after the call: observed {obs_arg}, model {list(m_slot_arg[s_i])}")
+        if b is not None:
+            rebound = b["ids"] != a["ids"]
+            if s_i < 5 and rebound != m_rebound[s_i]:
+                bad.append(f"{prog}: live slot {s_i} rebound: observed {rebound}, model {m_rebound[s_i]}")
+            if [_fp(o) for o in b["objs"]] != b["fp"] and not m_written[s_i]:
+                bad.append(f"{prog}: the object live slot {s_i} referred to was modified in place, the model program does not write it")
+    return bad[:4]
+
+
+def buffer_sample_facts(prog, batch, after):
+    """the returned batch components vs the live slots after the call (model: all fresh)"""
+    m = MODEL_FACTS.get(prog)
+    if m is None:
+        return []
+    m_ret_slot = m[0]
+    comps = [getattr(batch, f) for f in batch._fields]
+    bad = []
+    if len(comps) != len(m_ret_slot):
+        return [f"{prog}: {len(comps)} returned components, model program returns {len(m_ret_slot)}"]
+    for j, c in enumerate(comps):
+        arrs = [a for _, a in _leaves(c)]
+        for s_i, a in enumerate(after):
+            if a is None or s_i >= len(m_ret_slot[j]):
+                continue
+            o = any(_obj_related(x, y) for x in arrs for y in a["objs"])
+            if o != m_ret_slot[j][s_i]:
+                bad.append(f"{prog}: returned component {j} shares memory with live slot {s_i}: observed {o}, model {m_ret_slot[j][s_i]}")
+    return bad[:4]
+
 # ------------------------------------------------------------------ buffers
 
 def gen_buffer(rng):
@@ -556,7 +658,7 @@ def run_buffer(case):
 
     prim, twin = mk(), mk()
     hp, ht = Holder(), Holder()
-    problems, sharing = [], []
+    problems, sharing, facts_bad = [], [], []
     r = random.Random(case["seed"])
     n_added = 0
     for k in range(case["n_ops"]):
@@ -583,7 +685,11 @@ def run_buffer(case):
                 if is_roll:
                     buf.add(obs, act, rew, done.astype(np.float32), th.tensor([float(vals[5])] * n), th.tensor([float(vals[6])] * n))
                 else:
+                    before = _buf_snap(buf)
                     buf.add(obs, nxt, act, rew, done, [{} for _ in range(n)])
+                    if not is_twin and not facts_bad:
+                        groups = [[a for _, a in _leaves(obs)], [a for _, a in _leaves(nxt)], [act], [rew], [done]]
+                        facts_bad += buffer_add_facts("buffer_add", before, _buf_snap(buf), groups)
                 if not _same(args, snap) or (is_dict and ids != {k2: id(v) for k2, v in obs.items()}):
                     problems.append(("oracle-argument-modified", f"op {k}: {case['cls']}.add modified the arrays/dict it was handed"))
                 holder.keep(f"op{k}.add", args)
@@ -595,6 +701,8 @@ def run_buffer(case):
                     res = {"batches": [b for b in buf.get(3)]}
                 else:
                     res = {"batch": buf.sample(4)}
+                    if not is_twin and not facts_bad:
+                        facts_bad += buffer_sample_facts("buffer_sample", res["batch"], _buf_snap(buf))
                 holder.keep(f"op{k}.sample", res)
             outs.append(copy.deepcopy(res))
             bad = holder.changed()
@@ -616,7 +724,7 @@ def run_buffer(case):
         if problems:
             break
     live = sorted({(attr, nm) for (_, _, attr, nm) in sharing})
-    return problems, live, case["n_ops"]
+    return problems, live, case["n_ops"], facts_bad
 
 
 
@@ -667,7 +775,7 @@ def run_her(case):
 
     prim, twin = mk(), mk()
     hp, ht = Holder(), Holder()
-    problems, sharing = [], []
+    problems, sharing, facts_bad = [], [], []
     t_in_ep = 0
     for k in range(case["n_ops"] + 4):
         do_add = k < 4 or r.random() < 0.6
@@ -684,7 +792,13 @@ def run_her(case):
                 args = {"obs": obs, "next_obs": nxt, "action": np.full((n, 1), 0.5, dtype=np.float32), "reward": np.zeros(n, dtype=np.float32),
                         "done": np.array([end] * n)}
                 snap, isnap = copy.deepcopy(args), copy.deepcopy(infos)
+                cell = buf.pos
+                before = _buf_snap(buf, cell)
                 buf.add(obs, nxt, args["action"], args["reward"], args["done"], infos)
+                if not is_twin and not facts_bad:
+                    groups = [[a for _, a in _leaves(obs)], [a for _, a in _leaves(nxt)], [args["action"]], [args["reward"]], [args["done"]],
+                              list(infos), _mutable_values(infos)]
+                    facts_bad += buffer_add_facts("her_add", before, _buf_snap(buf, cell), groups)
                 if not _same(args, snap) or not _same(infos, isnap) or repr(infos) != repr(isnap):
                     problems.append(("oracle-argument-modified", f"op {k}: HerReplayBuffer.add modified the arrays / info dicts it was handed"))
                 holder.keep(f"op{k}.add", args)
@@ -699,6 +813,8 @@ def run_her(case):
                 np.random.seed(2000 + k)
                 try:
                     res = {"batch": buf.sample(6)}
+                    if not is_twin and not facts_bad:
+                        facts_bad += buffer_sample_facts("her_sample", res["batch"], _buf_snap(buf))
                 except (ValueError, RuntimeError):  # nothing sampleable yet (no finished episode)
                     res = {}
                 holder.keep(f"op{k}.sample", res)
@@ -719,7 +835,7 @@ def run_her(case):
         if problems:
             break
     live = sorted({(attr, nm) for (_, _, attr, nm) in sharing})
-    return problems, live, case["n_ops"] + 4
+    return problems, live, case["n_ops"] + 4, facts_bad
 
 
 # ------------------------------------------------------------------ predict
@@ -807,6 +923,10 @@ def model_call_facts():
             names.append(prog)
             exprs.append(f"let f := call_facts {prog} {nargs} {nlive} {ndead} in (f_ret_slot f, f_ret_arg f, f_ret_inner f, f_slot_rebound f, "
                          f"f_slot_inner f, f_slot_arg f, f_slot_written f, f_inner_written f)")
+    for prog, (nargs, nlive, ndead) in BUFFER_PROGRAMS.items():
+        names.append(prog)
+        exprs.append(f"let f := call_facts {prog} {nargs} {nlive} {ndead} in (f_ret_slot f, f_ret_arg f, f_ret_inner f, f_slot_rebound f, "
+                     f"f_slot_inner f, f_slot_arg f, f_slot_written f, f_inner_written f)")
     vals = common.coq_eval_many("C19_facts", HEADER, exprs, shard=40, procs=1)
     return {n: v for n, v in zip(names, vals)}
 
